@@ -403,7 +403,7 @@ def check(root, prop, cfg, tier, seed):
                     p = os.path.join(root, "coq", t[:-3] + ext)
                     if os.path.exists(p):
                         os.remove(p)
-        make_ok = step_make(root, targets, st)
+        make_ok = step_make(root, targets + ["Extract/Deps.vo"], st)
         hygiene_ok = step_hygiene(root, st)
         assum_ok = step_assumptions(root, prop, cfg, st) if make_ok else False
         # the executable model may still build although a proof broke
